@@ -44,6 +44,20 @@ def programs(tier):
             arr = "[" + ", ".join(lst) + "]"
             P.append((f"str_concat!(chars {fname} {arr})", [decl, f"const K: &str = konst::string::str_concat!({arg});", f"let e: [char; {len(lst)}] = {arr};",
                       f"out.push((\"str_concat!(chars {fname}) {arr}\".to_string(), K.to_string(), e.iter().collect::<String>()));"]))
+    # chars at every UTF-8 width boundary (the length pre-computation has to agree with the encoder): alone and in pairs
+    EDGE = ["'\\u{7F}'", "'\\u{80}'", "'\\u{7FF}'", "'\\u{800}'", "'\\u{FFFF}'", "'\\u{10000}'", "'\\u{10FFFF}'", "'\\0'"]
+    edge_lists = [(c,) for c in EDGE] + [(a, b) for a in EDGE for b in EDGE if a != b][:: (1 if tier == "thorough" else 3)] + [tuple(EDGE)]
+    for lst in edge_lists:
+        arr = "[" + ", ".join(lst) + "]"
+        P.append((f"str_concat!(boundary chars {arr})", [f"const K: &str = konst::string::str_concat!(&{arr});", f"let e: [char; {len(lst)}] = {arr};",
+                  f"out.push((\"str_concat!(boundary chars) {arr}\".to_string(), K.to_string(), e.iter().collect::<String>()));"]))
+        P.append((f"string::from_iter!(boundary chars {arr})", [f"const A: [char; {len(lst)}] = {arr};", "const K: &str = konst::string::from_iter!(&A);", "const KR: &str = konst::string::from_iter!(&A, rev());",
+                  f"out.push((\"from_iter!(boundary chars) {arr}\".to_string(), K.to_string(), A.iter().collect::<String>()));",
+                  f"out.push((\"from_iter!(boundary chars, rev()) {arr}\".to_string(), KR.to_string(), A.iter().rev().collect::<String>()));"]))
+    for sep in EDGE:
+        P.append((f"str_join!(boundary char separator {sep})", [f"const K: &str = konst::string::str_join!({sep}, &[\"a\", \"\", \"ñb\"]);", f"const K1: &str = konst::string::str_join!({sep}, &[\"x\"]);",
+                  f"out.push((\"str_join!({sep}, 3 pieces)\".to_string(), K.to_string(), [\"a\", \"\", \"ñb\"].join({sep}.to_string().as_str())));",
+                  f"out.push((\"str_join!({sep}, 1 piece)\".to_string(), K1.to_string(), [\"x\"].join({sep}.to_string().as_str())));"]))
     # str_join!
     for lst in lists(PIECES, maxn):
         arr = "[" + ", ".join(lst) + "]"
